@@ -182,3 +182,130 @@ theorem concatenate_sameObs (pts : List PT) (id : Option String) (meas : List Me
   rw [guardRun_meas ft ms off hendF, guardRun_meas et ms off invE.trail, so.1, so.2]
 
 end QP.C05
+
+namespace QP.C05
+open QP.PT
+
+/-! ## `RepetitionPulseTemplate.with_repetition`: merging the counts -/
+
+theorem checkedInt_intCast (z : Int) : checkedInt (z : Rat) = some z := by
+  unfold checkedInt
+  have h1 : ((z : Rat) + 1 / 2).floor = z := by
+    have := @Rat.floor_add_intCast (1 / 2 : Rat) z
+    rw [Rat.add_comm] at this
+    rw [this]
+    have : (1 / 2 : Rat).floor = 0 := by decide +kernel
+    omega
+  simp only [h1]
+  have : (z : Rat) - (z : Rat) = 0 := by grind
+  simp only [this]
+  have h0 : ¬ ((if (0 : Rat) ≤ 0 then (0 : Rat) else -0) > 1 / 1000000) := by decide +kernel
+  simp only [h0, if_false]
+
+theorem PL_replicate_mul (n m : Nat) (pl : PL) : PL.replicate (n * m) pl = PL.replicate m (PL.replicate n pl) := by
+  unfold PL.replicate
+  induction m with
+  | zero => simp
+  | succ k ih =>
+    rw [Nat.mul_succ, ← List.replicate_append_replicate, List.flatten_append, ih, List.replicate_succ']
+    simp
+
+theorem repeatWindows_succ (ws : List Window) (n : Nat) (d : Rat) :
+    repeatWindows ws (n + 1) d = repeatWindows ws n d ++ ws.map (shiftW ((n : Rat) * d)) := by
+  simp [repeatWindows, List.range_succ, List.flatMap_append]
+
+theorem repeatWindows_add (ws : List Window) (a b : Nat) (d : Rat) :
+    repeatWindows ws (a + b) d = repeatWindows ws a d ++ (repeatWindows ws b d).map (shiftW ((a : Rat) * d)) := by
+  induction b with
+  | zero => simp [repeatWindows]
+  | succ k ih =>
+    rw [← Nat.add_assoc, repeatWindows_succ, ih, repeatWindows_succ, List.map_append, List.append_assoc]
+    congr 2
+    rw [List.map_map]
+    apply List.map_congr_left
+    intro w _
+    simp only [Function.comp, shiftW_shiftW]
+    congr 1
+    have : ((a + k : Nat) : Rat) = (a : Rat) + (k : Rat) := by simp [Rat.natCast_add]
+    rw [this]; grind
+
+theorem repeatWindows_mul (ws : List Window) (n m : Nat) (d : Rat) :
+    repeatWindows (repeatWindows ws n d) m (d * n) = repeatWindows ws (n * m) d := by
+  induction m with
+  | zero => simp [repeatWindows]
+  | succ k ih =>
+    rw [repeatWindows_succ, ih, Nat.mul_succ, repeatWindows_add]
+    congr 2
+    have : ((n * k : Nat) : Rat) = (n : Rat) * (k : Rat) := by simp [Rat.natCast_mul]
+    rw [this]; grind
+
+
+/-- `denote` of a repetition whose count evaluates to the natural number `n`, constraints fulfilled -/
+theorem denote_rep_nat (body : PT) (count : Expr) (cons : List Expr) (σ : Scope) (mm : List (MName × Option MName))
+    (cm : List (Chan × Option Chan)) (n : Nat) (hcons : validateCons cons σ.look = .ok ())
+    (hc : σ.eval count = .ok (n : Rat)) :
+    denote (.rep none body count [] cons) σ mm cm =
+      (if n = 0 then pure Pulse.empty else do
+        let b ← denote body σ mm cm
+        if b.isEmpty then pure Pulse.empty else
+        pure { dur := b.dur * n, chans := b.chans.map (fun (c, pl) => (c, PL.replicate n pl)),
+               windows := repeatWindows b.windows n b.dur }) := by
+  rw [denote]
+  have hci : checkedInt ((n : Rat)) = some (n : Int) := by
+    have := checkedInt_intCast (n : Int)
+    have e : (((n : Int) : Rat)) = (n : Rat) := rfl
+    rw [e] at this
+    exact this
+  simp only [hcons, hc, bind, Except.bind, hci]
+  by_cases h0 : n = 0
+  · subst h0; simp
+  · have hpos : ¬ ((n : Int) ≤ 0) := by omega
+    simp only [hpos, h0, if_false, getMeas, List.foldlM_nil, pure, Except.pure, List.nil_append, Int.toNat_natCast]
+
+
+/-- `RepetitionPT(body, c, constraints).with_repetition(k)` (the merged template with count `c * k`) denotes
+exactly the pulse of the explicit nesting `RepetitionPT(RepetitionPT(body, c, constraints), k)` whenever both
+counts evaluate to natural numbers and the constraints hold (PF-27: false for two negative counts; with violated
+constraints and `k = 0` the explicit nesting does not even look at them). -/
+theorem withRepetition_merge_denote (body : PT) (c k : Expr) (cons : List Expr) (σ : Scope)
+    (mm : List (MName × Option MName)) (cm : List (Chan × Option Chan)) (n m : Nat)
+    (hcons : validateCons cons σ.look = .ok ())
+    (hc : σ.eval c = .ok (n : Rat)) (hk : σ.eval k = .ok (m : Rat)) :
+    denote (withRepetition (.rep none body c [] cons) k) σ mm cm =
+      denote (withRepetitionExplicit (.rep none body c [] cons) k) σ mm cm := by
+  have hck : σ.eval (.mul c k) = .ok ((n * m : Nat) : Rat) := by
+    simp only [Scope.eval, Expr.eval] at hc hk ⊢
+    simp only [hc, hk, bind, Except.bind, pure, Except.pure]
+    congr 1
+    simp [Rat.natCast_mul]
+  simp only [withRepetition, withRepetitionExplicit]
+  have hnil : validateCons [] σ.look = .ok () := rfl
+  rw [denote_rep_nat body (.mul c k) cons σ mm cm (n * m) hcons hck,
+    denote_rep_nat (.rep none body c [] cons) k [] σ mm cm m hnil hk,
+    denote_rep_nat body c cons σ mm cm n hcons hc]
+  by_cases hm : m = 0
+  · subst hm; simp
+  · by_cases hn : n = 0
+    · subst hn
+      simp [hm, bind, Except.bind, pure, Except.pure, Pulse.isEmpty, Pulse.empty]
+    · have hnm : n * m ≠ 0 := Nat.mul_ne_zero hn hm
+      simp only [hm, hn, hnm, if_false]
+      cases hb : denote body σ mm cm with
+      | error e => simp [bind, Except.bind]
+      | ok b =>
+        simp only [bind, Except.bind, pure, Except.pure, Pulse.isEmpty]
+        by_cases hch : b.chans.isEmpty = true
+        · simp [hch, Pulse.empty]
+        · have hch' : b.chans.isEmpty = false := by simpa using hch
+          have hmap : (List.map (fun (x : Chan × PL) => (x.1, PL.replicate n x.2)) b.chans).isEmpty = false := by
+            rw [List.isEmpty_map]; exact hch'
+          simp only [hch', Bool.false_eq_true, if_false, hmap]
+          have e1 : b.dur * ((n * m : Nat) : Rat) = b.dur * (n : Rat) * (m : Rat) := by
+            have : ((n * m : Nat) : Rat) = (n : Rat) * (m : Rat) := by simp [Rat.natCast_mul]
+            rw [this]; grind
+          rw [e1, ← repeatWindows_mul b.windows n m b.dur]
+          simp only [PL_replicate_mul, List.map_map]
+          rfl
+
+
+end QP.C05
